@@ -4,13 +4,17 @@ import (
 	"bytes"
 	"fmt"
 	"go/ast"
+	"go/constant"
 	"go/importer"
 	"go/parser"
 	"go/printer"
+	"go/token"
 	"go/types"
 	"sort"
+	"strconv"
 	"strings"
 
+	"golang.org/x/tools/go/ast/astutil"
 	"golang.org/x/tools/go/packages"
 )
 
@@ -419,4 +423,154 @@ func specialise(pkgs map[string]*packages.Package) ([]string, error) {
 	}
 	sort.Strings(notes)
 	return notes, nil
+}
+
+// Negation normal form pre-pass. The subject's syntax is rewritten, before any
+// rule looks at it, so that equivalent spellings of a condition are one tree:
+// negations are pushed inwards (!(a == b) is a != b, !(a < b) is a >= b,
+// !(a || b) is !a && !b, !!a is a) and a comparison has its constant operand
+// (literal, nil, named constant) on the right. The rewritten packages are
+// type-checked again. The program keeps its behaviour: these are identities of
+// Go's boolean and comparison operators on the (side-effect free or not)
+// operands, evaluated in the same order.
+func normaliseSyntax(pkgs map[string]*packages.Package) (int, error) {
+	n := 0
+	for _, path := range []string{pathRoot, pathW, pathCmd} {
+		p := pkgs[path]
+		if p == nil {
+			continue
+		}
+		info := p.TypesInfo
+		isConst := func(e ast.Expr) bool {
+			e = ast.Unparen(e)
+			if tv, ok := info.Types[e]; ok && (tv.Value != nil || tv.IsNil()) {
+				return true
+			}
+			if id, ok := e.(*ast.Ident); ok && (id.Name == "nil" || id.Name == "true" || id.Name == "false") {
+				return info.Uses[id] == nil || info.Uses[id].Pkg() == nil
+			}
+			return false
+		}
+		flip := map[token.Token]token.Token{token.EQL: token.NEQ, token.NEQ: token.EQL, token.LSS: token.GEQ, token.GEQ: token.LSS, token.GTR: token.LEQ, token.LEQ: token.GTR}
+		mirror := map[token.Token]token.Token{token.EQL: token.EQL, token.NEQ: token.NEQ, token.LSS: token.GTR, token.GTR: token.LSS, token.LEQ: token.GEQ, token.GEQ: token.LEQ}
+		var neg func(e ast.Expr) ast.Expr
+		neg = func(e ast.Expr) ast.Expr {
+			in := ast.Unparen(e)
+			switch x := in.(type) {
+			case *ast.UnaryExpr:
+				if x.Op == token.NOT {
+					n++
+					return x.X // !!a
+				}
+			case *ast.BinaryExpr:
+				if op, ok := flip[x.Op]; ok {
+					n++
+					return &ast.BinaryExpr{X: x.X, OpPos: x.OpPos, Op: op, Y: x.Y}
+				}
+				switch x.Op {
+				case token.LAND:
+					n++
+					return &ast.ParenExpr{Lparen: x.Pos(), X: &ast.BinaryExpr{X: neg(x.X), OpPos: x.OpPos, Op: token.LOR, Y: neg(x.Y)}, Rparen: x.End()}
+				case token.LOR:
+					n++
+					return &ast.BinaryExpr{X: neg(x.X), OpPos: x.OpPos, Op: token.LAND, Y: neg(x.Y)}
+				}
+			}
+			return &ast.UnaryExpr{OpPos: e.Pos(), Op: token.NOT, X: e}
+		}
+		// uses of each local, to recognise a condition hoisted into a single-use local
+		useCount := map[types.Object]int{}
+		for id, o := range info.Uses {
+			_ = id
+			useCount[o]++
+		}
+		for _, f := range p.Syntax {
+			// (a) parentheses carry no information in a syntax tree
+			astutil.Apply(f, nil, func(c *astutil.Cursor) bool {
+				if pe, ok := c.Node().(*ast.ParenExpr); ok {
+					if _, isType := c.Parent().(*ast.Field); !isType {
+						c.Replace(pe.X)
+						n++
+					}
+				}
+				return true
+			})
+			// (b) a named string constant of the module is its value
+			astutil.Apply(f, func(c *astutil.Cursor) bool {
+				id, ok := c.Node().(*ast.Ident)
+				if !ok {
+					return true
+				}
+				k, ok := info.Uses[id].(*types.Const)
+				if !ok || k.Pkg() == nil || k.Val().Kind() != constant.String {
+					return true
+				}
+				if pp := k.Pkg().Path(); pp != pathRoot && pp != pathW && pp != pathCmd {
+					return true
+				}
+				if b, isB := k.Type().Underlying().(*types.Basic); !isB || b.Kind() != types.UntypedString && b.Kind() != types.String {
+					return true
+				}
+				if _, isSel := c.Parent().(*ast.SelectorExpr); isSel {
+					return true
+				}
+				c.Replace(&ast.BasicLit{ValuePos: id.Pos(), Kind: token.STRING, Value: strconv.Quote(constant.StringVal(k.Val()))})
+				n++
+				return true
+			}, nil)
+			// (c) `c := cond; if c {…}` with c used nowhere else is `if cond {…}`
+			astutil.Apply(f, func(c *astutil.Cursor) bool {
+				blk, ok := c.Node().(*ast.BlockStmt)
+				if !ok {
+					return true
+				}
+				var out []ast.Stmt
+				for i := 0; i < len(blk.List); i++ {
+					as, ok := blk.List[i].(*ast.AssignStmt)
+					if ok && as.Tok == token.DEFINE && len(as.Lhs) == 1 && len(as.Rhs) == 1 && i+1 < len(blk.List) {
+						if is, ok := blk.List[i+1].(*ast.IfStmt); ok && is.Init == nil {
+							if lhs, ok := as.Lhs[0].(*ast.Ident); ok {
+								if cid, ok := is.Cond.(*ast.Ident); ok && info.Defs[lhs] != nil && info.Uses[cid] == info.Defs[lhs] && useCount[info.Defs[lhs]] == 1 {
+									if b, isB := info.Defs[lhs].Type().Underlying().(*types.Basic); isB && b.Info()&types.IsBoolean != 0 {
+										is.Cond = as.Rhs[0]
+										n++
+										continue // drop the definition
+									}
+								}
+							}
+						}
+					}
+					out = append(out, blk.List[i])
+				}
+				blk.List = out
+				return true
+			}, nil)
+			astutil.Apply(f, nil, func(c *astutil.Cursor) bool {
+				switch x := c.Node().(type) {
+				case *ast.UnaryExpr:
+					if x.Op != token.NOT {
+						return true
+					}
+					switch ast.Unparen(x.X).(type) {
+					case *ast.UnaryExpr, *ast.BinaryExpr:
+						r := neg(x.X)
+						if u, ok := r.(*ast.UnaryExpr); ok && u.Op == token.NOT && u.X == x.X {
+							return true // nothing to push
+						}
+						c.Replace(r)
+					}
+				case *ast.BinaryExpr:
+					if op, ok := mirror[x.Op]; ok && isConst(x.X) && !isConst(x.Y) {
+						x.X, x.Y, x.Op = x.Y, x.X, op
+						n++
+					}
+				}
+				return true
+			})
+		}
+	}
+	if n == 0 {
+		return 0, nil
+	}
+	return n, recheck(pkgs)
 }
